@@ -682,6 +682,18 @@ func (c *Ctx) c08Redirect(fail *ssa.Function) {
 		_ = enc
 		okPath := hasField(os, ".Mount") || hasField(os, "Mount")
 		r.Check(okPath, "C08.redir", fnm, "RedirectPath", posf(c, call), "login page under the mount path", "redirect does not target <Mount>/login")
+		// … the mount path as configured when the request is refused: read by
+		// request-time code, not baked in when the middleware was built
+		stale := ""
+		for _, o := range os {
+			if o.Kind != "field" || !strings.HasSuffix(o.Name, "Mount") {
+				continue
+			}
+			if in, isI := o.V.(ssa.Instruction); isI && in.Parent() != nil && !c.isRequestTime(in.Parent()) {
+				stale = FuncName(in.Parent())
+			}
+		}
+		r.Check(stale == "", "C08.redir", fnm, "RedirectPath reads Mount per request", posf(c, call), "the mount path is read while the request is served", "the login path is computed from Paths.Mount in "+stale+", when the middleware is built: a mount path configured afterwards is ignored and the refusal redirects to the wrong login page")
 	}
 }
 
